@@ -516,7 +516,10 @@ Definition slot_ok (ms : segs) (pads : list region) (objs : list Ptr) (q : Z * Z
     (rs = [] \/ exists ps r, rs = ps ++ [r] /\ incl ps pads /\
         (r_size r = 0 \/ exists h, In h objs /\ r = obj_reg h /\ t = tgt_of h)).
 
-Definition all_regs (objs : list Ptr) (pads : list region) : list region := root_reg :: map obj_reg objs ++ pads.
+Definition regsO (objs : list Ptr) : list region := root_reg :: map obj_reg objs.
+Definition all_regs (objs : list Ptr) (pads : list region) : list region := regsO objs ++ pads.
+Definition ord_disjoint (l : list region) : Prop :=
+  forall i j, (i < j)%nat -> (j < length l)%nat -> reg_disjoint (nth i l root_reg) (nth j l root_reg) = true.
 
 Record hinv (m : bmsg) (objs : list Ptr) (pads : list region) : Prop := mkHinv {
   hi_inv : inv m;
@@ -525,9 +528,20 @@ Record hinv (m : bmsg) (objs : list Ptr) (pads : list region) : Prop := mkHinv {
   hi_good : forall h, In h objs -> p_valid h = true /\ good (bm_data m) h;
   hi_in : forall r, In r (all_regs objs pads) -> in_msg (bm_data m) r;
   hi_pads : forall r, In r pads -> 0 < r_size r;
-  hi_disj : forall a b, In a (all_regs objs pads) -> In b (all_regs objs pads) -> a = b \/ reg_disjoint a b = true;
+  hi_disjO : ord_disjoint (regsO objs);
+  hi_disjP : ord_disjoint pads;
+  hi_cross : forall a p, In a (regsO objs) -> In p pads -> reg_disjoint a p = true;
   hi_slots : forall q, In q ((0, 0) :: flat_map slots objs) -> slot_ok (bm_data m) pads objs q
 }.
+
+Lemma ord_disjoint_snoc l x : ord_disjoint l -> (forall a, In a l -> reg_disjoint a x = true) -> ord_disjoint (l ++ [x]).
+Proof.
+  intros H Hx i j Hij Hj. rewrite app_length in Hj. cbn [length] in Hj.
+  destruct (Nat.lt_ge_cases j (length l)) as [L|G].
+  - rewrite !app_nth1 by lia. apply H; auto.
+  - assert (j = length l) by lia. subst j. rewrite (app_nth1 l [x]) by lia. rewrite app_nth2 by lia.
+    rewrite Nat.sub_diag. cbn [nth]. apply Hx. apply nth_In. lia.
+Qed.
 
 (* a slot's own word lies inside its object (or is the root word) *)
 Lemma slot_in_obj (ms : segs) h q : p_valid h = true -> good ms h -> In q (slots h) ->
@@ -628,25 +642,27 @@ Lemma hinv_add_obj m objs pads m' h :
   (forall q, In q (slots h) -> word_at (bm_data m') (fst q) (snd q) = Some 0) ->
   hinv m' (objs ++ [h]) pads.
 Proof.
-  intros [Hi Hsm Hns Hg Hin Hpd Hd Hs] K I' Sm' Hn Hn' Hv Gd Fr Z.
+  intros [Hi Hsm Hns Hg Hin Hpd HdO HdP Hcr Hs] K I' Sm' Hn Hn' Hv Gd Fr Z.
   assert (G : grows (bm_data m) (bm_data m')) by (eapply keeps_grows; eauto).
-  assert (Hregs : forall r, In r (all_regs (objs ++ [h]) pads) -> In r (all_regs objs pads) \/ r = obj_reg h).
-  { intros r Hr. unfold all_regs in *. destruct Hr as [<-|Hr]; [left; left; reflexivity|].
-    rewrite map_app in Hr. apply in_app_or in Hr. destruct Hr as [Hr|Hr].
-    - apply in_app_or in Hr. destruct Hr as [Hr|[<-|[]]]; [left; right; apply in_or_app; left; exact Hr|right; reflexivity].
-    - left. right. apply in_or_app. right. exact Hr. }
+  assert (RO : regsO (objs ++ [h]) = regsO objs ++ [obj_reg h]).
+  { unfold regsO. rewrite map_app. reflexivity. }
+  assert (InO : forall a, In a (regsO objs) -> in_msg (bm_data m) a).
+  { intros a Ha. apply Hin. unfold all_regs. apply in_or_app. left. exact Ha. }
+  assert (InP : forall a, In a pads -> in_msg (bm_data m) a).
+  { intros a Ha. apply Hin. unfold all_regs. apply in_or_app. right. exact Ha. }
   constructor; auto.
   - intros x Hx. apply in_app_or in Hx. destruct Hx as [Hx|[<-|[]]].
     + destruct (Hg x Hx) as [V Gx]. split; [exact V|eapply good_mono; eauto].
     + split; assumption.
-  - intros r Hr. destruct (Hregs r Hr) as [Hr'| ->].
+  - intros r Hr. unfold all_regs in Hr. rewrite RO in Hr. apply in_app_or in Hr. destruct Hr as [Hr|Hr].
+    + apply in_app_or in Hr. destruct Hr as [Hr|[<-|[]]].
+      * eapply in_msg_mono; eauto.
+      * destruct Gd as (_ & _ & X & _). exact X.
     + eapply in_msg_mono; eauto.
-    + destruct Gd as (_ & _ & X & _). exact X.
-  - intros a b Ha Hb. destruct (Hregs a Ha) as [Ha'| ->]; destruct (Hregs b Hb) as [Hb'| ->].
-    + apply Hd; auto.
-    + right. apply (fresh_disjoint m); auto.
-    + right. apply reg_disjoint_sym. apply (fresh_disjoint m); auto.
-    + left. reflexivity.
+  - rewrite RO. apply ord_disjoint_snoc; auto. intros a Ha. apply (fresh_disjoint m); auto.
+  - intros a p Ha Hp. rewrite RO in Ha. apply in_app_or in Ha. destruct Ha as [Ha|[<-|[]]].
+    + apply Hcr; auto.
+    + apply reg_disjoint_sym. apply (fresh_disjoint m); auto.
   - intros q Hq. cbn [In] in Hq. rewrite flat_map_app in Hq.
     assert (Hq' : In q ((0, 0) :: flat_map slots objs) \/ In q (slots h)).
     { destruct Hq as [<-|Hq]; [left; left; reflexivity|]. apply in_app_or in Hq. destruct Hq as [Hq|Hq].
@@ -654,8 +670,72 @@ Proof.
       - cbn in Hq. rewrite app_nil_r in Hq. right. exact Hq. }
     destruct Hq' as [Hq'|Hq'].
     + apply (slot_ok_frame m m' Rnone pads objs); auto.
-      * intros r Hr. apply Hin. unfold all_regs. right. apply in_or_app. right. exact Hr.
       * apply incl_refl.
       * intros x Hx. apply in_or_app. left. exact Hx.
     + apply null_slot_ok. apply Z. exact Hq'.
+Qed.
+
+(* ------------------------------------------------------------------ writes that keep all lengths *)
+Lemma hinv_frame m objs pads m' (R : Z -> Z -> Prop) pads' :
+  hinv m objs pads -> keeps m m' R -> inv m' -> segs_small m' -> nsegs m <= nsegs m' -> nsegs m' < 4294967296 ->
+  (forall q, In q ((0, 0) :: flat_map slots objs) -> forall k, snd q <= k < snd q + 8 -> ~ R (fst q) k) ->
+  (forall r, In r pads -> forall k, r_start r <= k < r_start r + r_size r -> ~ R (r_seg r) k) ->
+  pads' = pads ->
+  hinv m' objs pads'.
+Proof.
+  intros [Hi Hsm Hns Hg Hin Hpd HdO HdP Hcr Hs] K I' Sm' Hn Hn' Hq Hp ->.
+  assert (G : grows (bm_data m) (bm_data m')) by (eapply keeps_grows; eauto).
+  constructor; auto.
+  - intros x Hx. destruct (Hg x Hx) as [V Gx]. split; [exact V|eapply good_mono; eauto].
+  - intros r Hr. eapply in_msg_mono; eauto.
+  - intros q Hq'. apply (slot_ok_frame m m' R pads objs); auto.
+    + intros r Hr. apply Hin. unfold all_regs. apply in_or_app. right. exact Hr.
+    + apply incl_refl.
+    + apply incl_refl.
+Qed.
+
+Lemma objs_disjoint m objs pads k k' :
+  hinv m objs pads -> k <> k' -> (k < length objs)%nat -> (k' < length objs)%nat ->
+  reg_disjoint (obj_reg (nth k objs nullPtr)) (obj_reg (nth k' objs nullPtr)) = true.
+Proof.
+  intros H Hne Hk Hk'. pose proof (hi_disjO _ _ _ H) as D. unfold ord_disjoint, regsO in D.
+  assert (E : forall n, (n < length objs)%nat -> nth (S n) (root_reg :: map obj_reg objs) root_reg = obj_reg (nth n objs nullPtr)).
+  { intros n Hn'. cbn [nth]. rewrite (nth_indep _ root_reg (obj_reg nullPtr)) by (rewrite map_length; lia). apply map_nth. }
+  destruct (Nat.lt_ge_cases k k') as [L|G'].
+  - rewrite <- (E k), <- (E k') by lia. apply D; [lia|cbn [length]; rewrite map_length; lia].
+  - apply reg_disjoint_sym. rewrite <- (E k), <- (E k') by lia. apply D; [lia|cbn [length]; rewrite map_length; lia].
+Qed.
+
+Lemma root_disjoint m objs pads h : hinv m objs pads -> In h objs -> reg_disjoint root_reg (obj_reg h) = true.
+Proof.
+  intros H Hh. destruct (In_nth _ _ nullPtr Hh) as (k & Hk & <-).
+  pose proof (hi_disjO _ _ _ H) as D. unfold ord_disjoint, regsO in D.
+  specialize (D O (S k) ltac:(lia) ltac:(cbn [length]; rewrite map_length; lia)). cbn [nth] in D.
+  rewrite (nth_indep _ root_reg (obj_reg nullPtr)) in D by (rewrite map_length; lia). rewrite map_nth in D. exact D.
+Qed.
+
+(* a byte range inside the data part of one object touches no pointer slot and no pad *)
+Lemma data_range_avoids m objs pads h lo hi :
+  hinv m objs pads -> In h objs -> p_off h <= lo -> hi <= p_off h + r_size (obj_reg h) ->
+  (forall q, In q (slots h) -> hi <= snd q) ->
+  let R := fun i k => i = p_seg h /\ lo <= k < hi in
+  (forall q, In q ((0, 0) :: flat_map slots objs) -> forall k, snd q <= k < snd q + 8 -> ~ R (fst q) k) /\
+  (forall r, In r pads -> forall k, r_start r <= k < r_start r + r_size r -> ~ R (r_seg r) k).
+Proof.
+  intros H Hh Hlo Hhi Hsl R. split.
+  - intros q Hq k Hk [E1 E2].
+    destruct Hq as [<-|Hq].
+    + cbn [fst snd] in *. pose proof (root_disjoint _ _ _ _ H Hh) as D. cbv [reg_disjoint root_reg obj_reg r_seg r_start r_size] in D, Hhi. lia.
+    + apply in_flat_map in Hq. destruct Hq as (h' & Hh' & Hq).
+      destruct (hi_good _ _ _ H h' Hh') as [V' G'].
+      destruct (slot_in_obj _ _ _ V' G' Hq) as (S1 & S2 & S3 & _).
+      destruct (In_nth _ _ nullPtr Hh) as (n & Hn & En). destruct (In_nth _ _ nullPtr Hh') as (n' & Hn' & En').
+      destruct (Nat.eq_dec n n') as [->|Hne].
+      * rewrite En in En'. subst h'. specialize (Hsl q Hq). lia.
+      * pose proof (objs_disjoint _ _ _ n n' H Hne Hn Hn') as D. rewrite En, En' in D.
+        cbv [reg_disjoint obj_reg r_seg r_start r_size] in D, S3, Hhi. lia.
+  - intros r Hr k Hk [E1 E2].
+    assert (Ha : In (obj_reg h) (regsO objs)) by (unfold regsO; right; apply in_map; exact Hh).
+    pose proof (hi_cross _ _ _ H _ _ Ha Hr) as D. pose proof (hi_pads _ _ _ H r Hr) as Pz.
+    destruct r as [rs rst rsz]. cbv [reg_disjoint obj_reg r_seg r_start r_size] in *. lia.
 Qed.
